@@ -65,3 +65,66 @@ Definition roundtrip_ok_b (acc2 : bool) (dump1 dump2 p1 p2 : bytes) : bool :=
 (* round trip on the model, as a Prop *)
 Definition roundtrips (d : document) : Prop :=
   exists ts, lex (print d) = Some ts /\ parse (strip ts) = Ok d [].
+
+(* ---- when does a string survive being printed and lexed again? ----
+   ast.PrintValue writes the raw content between quotes; the content is stable when lexing
+   quote ++ raw ++ quote ++ " x" gives back one string token with literal [raw] and then the
+   identifier x.  (Evaluated on the implementation's trees to attribute round-trip failures.) *)
+Definition sentinel : bytes := [32; 120].
+Definition lex_lits (b : bytes) : option (list (kind * bytes)) :=
+  match tokenize b with
+  | Some ts => Some (map (fun t => (t_kind t, tok_lit b t)) ts)
+  | None => None
+  end.
+Definition string_stable_b (raw : bytes) (block : bool) : bool :=
+  let q := if block then s_quote3 else s_quote in
+  match lex_lits (q ++ raw ++ q ++ sentinel) with
+  | Some [(k, lit); (KIdent, [120])] =>
+    kind_eqb k (if block then KBlockString else KString) && bytes_eqb lit raw
+  | _ => false
+  end.
+(* a block description is printed between  """ LF  and  LF """ *)
+Definition description_stable_b (raw : bytes) (block : bool) : bool :=
+  if block then
+    match lex_lits (s_quote3 ++ nl ++ raw ++ nl ++ s_quote3 ++ sentinel) with
+    | Some [(KBlockString, lit); (KIdent, [120])] => bytes_eqb lit raw
+    | _ => false
+    end
+  else string_stable_b raw false.
+
+Fixpoint value_strings_stable_b (v : value) : bool :=
+  match v with
+  | VStr raw blk => string_stable_b raw blk
+  | VList items => forallb value_strings_stable_b items
+  | VObj fields => forallb (fun kv => value_strings_stable_b (snd kv)) fields
+  | _ => true
+  end.
+Definition args_stable_b (a : list argument) : bool := forallb (fun kv => value_strings_stable_b (snd kv)) a.
+Definition dirs_stable_b (ds : list directive) : bool := forallb (fun d => args_stable_b (d_args d)) ds.
+Fixpoint sel_stable_b (s : selection) : bool :=
+  match s with
+  | SField _ _ args dirs sels => args_stable_b args && dirs_stable_b dirs && forallb sel_stable_b sels
+  | SInline _ dirs sels => dirs_stable_b dirs && forallb sel_stable_b sels
+  | SSpread _ dirs => dirs_stable_b dirs
+  end.
+Definition vardef_stable_b (v : vardef) : bool :=
+  match vd_default v with Some dv => value_strings_stable_b dv | None => true end && dirs_stable_b (vd_dirs v).
+Definition def_stable_b (d : definition) : bool :=
+  match d with
+  | DOp o => forallb vardef_stable_b (op_vars o) && dirs_stable_b (op_dirs o) && forallb sel_stable_b (op_sels o)
+  | DFrag f => dirs_stable_b (fr_dirs f) && forallb sel_stable_b (fr_sels f)
+  end.
+Definition doc_strings_stable_b (d : document) : bool := forallb def_stable_b d.
+
+(* EnterOperationDefinition writes the word "query" only for a named query or one with variables:
+   an anonymous query that has directives prints as "@dir {...}" *)
+Definition def_printable_b (d : definition) : bool :=
+  match d with
+  | DOp o =>
+    match op_kind o, op_name o, op_vars o, op_dirs o with
+    | OpQuery, None, [], _ :: _ => false
+    | _, _, _, _ => true
+    end
+  | DFrag _ => true
+  end.
+Definition doc_printable_b (d : document) : bool := forallb def_printable_b d.
